@@ -9,6 +9,10 @@ CHECKS = {
    "TLA+ spec AstTree.tla/Walk.tla model-checked by TLC; every TLC-enumerated transition replayed on real ast.Node values; random call traces validated by TLC against TraceAstTree.tla",
    "TLC enumerates every forest over 4 (thorough: 5) nodes and every mutator call satisfying the proviso; each transition is executed on the real nodes from the shortest path and along random walks and the complete accessor projection compared; every (forest, root, walker script) of Walk.tla is executed with the real ast.Walk; 150+ random call sequences over 6 nodes are logged and validated by TLC. Exhaustive within the bounds, so the right level is model checking with conformance replay.",
    "TLC, the Json community module, the Go projection through public accessors; node pools of 4-6 nodes", "DESIGN.md 3.1, 5/C13"),
+ "C18": ("model_checking",
+   "TLA+ cursor model Reader.tla model-checked by TLC; every TLC-enumerated (source, segments, cursor, saved positions, call) transition replayed on real text.Reader/BlockReader values under every cache state (fill -> move -> query); random call traces validated by TLC against TraceReader.tla",
+   "TLC enumerates all sources up to length 3 (thorough: 4) over tab/newline/letter and bracket alphabets, for the block reader all lists of padded line segments, and every call sequence as a graph over (cursor, saved positions); each transition is executed on the real readers from its shortest path after each subset of the cache-filling queries, followed by every query of the successor state, plus random walks; 400+ random call sequences on sources up to 27 bytes (CR, brackets, back-ticks, backslashes) are logged with their replies and validated by TLC. Exhaustive within the bounds: model checking with conformance replay.",
+   "TLC, Json module; documented preconditions encoded as CallOk in Reader.tla (listed in the evidence assumptions)", "DESIGN.md 3.2, 5/C18"),
 }
 
 NOT_YET = "check not built yet in this revision of /verif (see DESIGN.md section 5 for the planned TLA+ decision procedure)"
